@@ -129,11 +129,10 @@ func (d *mapDriver) read(key []byte, skip, viaLoad bool) {
 		v, ok := d.be.Load(k)
 		poison()
 		d.c.Tracef("Load(%s) = %v, %v   model: %v", keyName(key), v, ok, kind)
-		d.countRead(ok, !ok && kind == rkExpired && !lossy)
+		d.countRead(ok, !ok && (kind == rkExpired || e.atBoundary(now)) && !lossy)
 
 		if lossy && !ok {
-			d.forget(key)
-
+			// Load cannot tell "displaced" from "expired": the entry stays possibly-lost
 			return
 		}
 
